@@ -324,3 +324,116 @@ func vxH_C11_children() {
 		store.Close()
 	}
 }
+
+func init() { vxRegister("vxH_C11_nested", vxH_C11_nested) }
+
+// vxH_C11_nested: two nesting levels on a store-backed collection. Batches
+// write the fixed key at a symbolic level (top / child a / grandchild a/g),
+// possibly ONLY the grandchild; then the child is deleted (together with a
+// parent write) and optionally created again with a write of its own. After
+// every persisted round and after a reopen: each level reads its own
+// reference, the grandchild exists exactly while it has been written since
+// the last deletion of its parent, and a recreated child has no grandchild.
+func vxH_C11_nested() {
+	fs := vxNewFS()
+	so := vxStoreOptions(fs)
+	so.CollectionOptions.CachePersisted = vxChoose(2) == 1
+	po := StorePersistOptions{CompactionConcern: CompactionConcern(vxChoose(3))}
+	store, coll, err := OpenStoreCollection(fs.dir, so, po)
+	vxAssert("open-ok", err == nil)
+	var K vxKey
+	K.n, K.b[0] = 1, 'k'
+	kb := []byte{'k'}
+	var lay [3][][]vxEnt // reference layers: top, a, a/g
+	hasA, hasG := false, false
+	write := func(level int) {
+		b, berr := coll.NewBatch(2, 16)
+		vxAssert("newbatch-ok", berr == nil)
+		ents := vxFixedSet()
+		switch level {
+		case 0:
+			vxFillBatch(b, ents)
+		case 1:
+			cb, cerr := b.NewChildCollectionBatch("a", BatchOptions{TotalOps: 1, TotalKeyValBytes: 8})
+			vxAssert("childbatch-ok", cerr == nil)
+			vxFillBatch(cb, ents)
+			hasA = true
+		case 2:
+			cb, cerr := b.NewChildCollectionBatch("a", BatchOptions{TotalOps: 1, TotalKeyValBytes: 8})
+			vxAssert("childbatch-ok", cerr == nil)
+			gb, gerr := cb.NewChildCollectionBatch("g", BatchOptions{TotalOps: 1, TotalKeyValBytes: 8})
+			vxAssert("grandchildbatch-ok", gerr == nil)
+			vxFillBatch(gb, ents)
+			hasA, hasG = true, true
+		}
+		lay[level] = append(lay[level], ents)
+		vxAssert("executebatch-ok", coll.ExecuteBatch(b, WriteOptions{}) == nil)
+		b.Close()
+	}
+	check := func(tag string, snap Snapshot) {
+		got, gerr := snap.Get(kb, ReadOptions{})
+		vxAssert(tag+"-get-ok", gerr == nil)
+		vxAssert(tag+"-top-content", vxGotIs(got, vxRefGet(K, lay[0]...)))
+		as, aerr := snap.ChildCollectionSnapshot("a")
+		vxAssert(tag+"-child-snapshot-ok", aerr == nil)
+		vxAssert(tag+"-child-exists-iff-written", (as != nil) == hasA)
+		if as == nil {
+			return
+		}
+		agot, _ := as.Get(kb, ReadOptions{})
+		vxAssert(tag+"-child-content-isolated", vxGotIs(agot, vxRefGet(K, lay[1]...)))
+		gs, gserr := as.ChildCollectionSnapshot("g")
+		vxAssert(tag+"-grandchild-snapshot-ok", gserr == nil)
+		vxAssert(tag+"-grandchild-exists-iff-written", (gs != nil) == hasG)
+		if gs != nil {
+			ggot, _ := gs.Get(kb, ReadOptions{})
+			vxAssert(tag+"-grandchild-content-isolated", vxGotIs(ggot, vxRefGet(K, lay[2]...)))
+			gs.Close()
+		}
+		as.Close()
+	}
+	checkAll := func(tag string) {
+		ss, serr := store.Snapshot()
+		vxAssert("store-snapshot-ok", serr == nil)
+		check(tag+"-store", ss)
+		ss.Close()
+		cs, cerr := coll.Snapshot()
+		vxAssert("coll-snapshot-ok", cerr == nil)
+		check(tag+"-coll", cs)
+		cs.Close()
+	}
+	for r := 0; r < 2; r++ {
+		write(vxChoose(3))
+		vxDrain(coll)
+		checkAll("written")
+	}
+	if vxChoose(2) == 1 && hasA {
+		// delete the child (and with it the grandchild) together with a parent write
+		b, berr := coll.NewBatch(2, 16)
+		vxAssert("newbatch-ok", berr == nil)
+		ents := vxFixedSet()
+		vxFillBatch(b, ents)
+		lay[0] = append(lay[0], ents)
+		vxAssert("delchild-ok", b.DelChildCollection("a") == nil)
+		vxAssert("executebatch-ok", coll.ExecuteBatch(b, WriteOptions{}) == nil)
+		b.Close()
+		hasA, hasG = false, false
+		lay[1], lay[2] = nil, nil
+		if vxChoose(2) == 1 {
+			vxDrain(coll)
+		}
+		if vxChoose(2) == 1 {
+			write(1) // created again: starts empty, without a grandchild
+		}
+		vxDrain(coll)
+		checkAll("after-delete")
+	}
+	coll.Close()
+	store.Close()
+	vxQuiesce()
+	store, coll, err = OpenStoreCollection(fs.dir, so, po)
+	vxAssert("reopen-ok", err == nil)
+	checkAll("reopened")
+	coll.Close()
+	store.Close()
+}
